@@ -96,11 +96,12 @@ class SuperVal:
 
 class PBase:
     """Opaque (arbitrary, unknown) list prefix: a name and a symbolic length >= 0."""
-    __slots__ = ("name", "length")
+    __slots__ = ("name", "length", "silent")
 
-    def __init__(self, name, length):
+    def __init__(self, name, length, silent=False):
         self.name = name
         self.length = length
+        self.silent = silent        # contract family: every element of the prefix, when called, returns None
 
     def __repr__(self):
         return "PBase(%s)" % self.name
@@ -952,9 +953,16 @@ class Interp:
                   and not any(isinstance(n, ast.Name) and n.id == node.target.id
                               for a in list(b[0].value.args) + [k.value for k in b[0].value.keywords]
                               for n in ast.walk(a)))
+            call = b[0].value if ok else None
+            if not ok and getattr(itv.base, "silent", False):
+                # second summarised pattern, for a prefix whose elements all answer None (contract family):
+                #     for f in L:  r = f(<loop-invariant args>);  if r is not None: <anything>
+                # each prefix element is called once, in order, and the `if` is never taken for it; `r` must be dead
+                # outside the loop (an empty prefix leaves it unbound, a non-empty one leaves None)
+                call = self._silent_prefix_call(node, fr)
+                ok = call is not None
             if not ok:
                 raise Unsupported("loop over a list with unknown prefix is not of the form `for f in L: f(args)`")
-            call = b[0].value
             args = tuple(self.eval(a, fr) for a in call.args)
             if any(k.arg is None for k in call.keywords):
                 raise Unsupported("** in summarised callback loop")
@@ -975,6 +983,29 @@ class Interp:
             except ContinueEx:
                 continue
         self.exec_block(node.orelse, fr)
+
+    def _silent_prefix_call(self, node, fr):
+        b = node.body
+        if not (len(b) == 2 and isinstance(b[0], ast.Assign) and len(b[0].targets) == 1 and isinstance(b[0].targets[0], ast.Name)
+                and isinstance(b[0].value, ast.Call) and isinstance(node.target, ast.Name)
+                and isinstance(b[0].value.func, ast.Name) and b[0].value.func.id == node.target.id and not node.orelse
+                and isinstance(b[1], ast.If) and not b[1].orelse):
+            return None
+        r = b[0].targets[0].id
+        t = b[1].test
+        if not (isinstance(t, ast.Compare) and isinstance(t.left, ast.Name) and t.left.id == r and len(t.ops) == 1
+                and isinstance(t.ops[0], ast.IsNot) and isinstance(t.comparators[0], ast.Constant)
+                and t.comparators[0].value is None):
+            return None
+        call = b[0].value
+        for a in list(call.args) + [k.value for k in call.keywords]:
+            if any(isinstance(n, ast.Name) and n.id in (node.target.id, r) for n in ast.walk(a)):
+                return None
+        inside = set(id(n) for n in ast.walk(node))
+        for n in ast.walk(fr.fd.node):
+            if isinstance(n, ast.Name) and n.id in (r, node.target.id) and id(n) not in inside:
+                return None             # result / loop variable used outside the loop: not summarised
+        return call
 
     def s_With(self, node, fr):
         mgrs = []
